@@ -403,7 +403,7 @@ class Simplifier(walkers.dag.DagWalker):
             if right.constant_value() < 0:
                 value = -right.constant_value()
                 fnode_constant_values = self._number_to_fnode(value)
-                return self.manager.Plus(left, fnode_constant_values)
+                return self.walk_plus(expression, [left, fnode_constant_values])
             else:
                 return self.manager.Minus(left, right)
         else:
